@@ -1,8 +1,75 @@
 """C14 — pipe events are ordered; dialers redial; listeners keep accepting."""
-from .. import core, life_common
+import json, os, re, subprocess, time
+from .. import core, build, life_common
 
 PROP = "C14"
+SUB = "accept"
+
+
+def scenarios(tier):
+    pid = os.getpid()
+    sc = [("burst", "tcp://127.0.0.1:0", "3"), ("burst", f"ipc:///tmp/verif-accept-{pid}.ipc", "3"), ("burst", "ws://127.0.0.1:0/x", "2"),
+          ("burst", "inproc://verif-accept", "4"), ("garbage", "tcp://127.0.0.1:0")]
+    if tier == "thorough":
+        sc += [("burst", "tcp://127.0.0.1:0", "8"), ("burst", f"ipc:///tmp/verif-accept-{pid}-b.ipc", "8"), ("burst", "ws://127.0.0.1:0/y", "6"),
+               ("burst", "tcp://[::1]:0", "3")]
+    return sc
+
+
+def run_one(exe, args):
+    try:
+        p = subprocess.run([exe] + list(args), capture_output=True, text=True, env=build.env(), timeout=90)
+        line, rc, err = (p.stdout.strip().splitlines() or [""])[-1], p.returncode, p.stderr
+    except subprocess.TimeoutExpired:
+        line, rc, err = "", -999, "timeout"
+    m = re.search(r"k=(\d+) dialed=(\d+) pre=(\d+) post=(\d+) got=(\d+)", line)
+    ok = rc == 0 and m is not None and int(m.group(3)) == int(m.group(1)) and int(m.group(4)) == int(m.group(1)) and int(m.group(5)) == int(m.group(1))
+    return ok, line, rc, err
+
+
+def accept_part(tier, seed, st, replay=None):
+    """REAL transports (harness/r_accept.c): a burst of simultaneous connections while the listener's ADD_PRE callback holds
+    the first pipe, and a connection right after a failed handshake: every connection must surface on the listening socket
+    (ADD_PRE, ADD_POST) and carry its message.  A failing scenario is repeated twice; it is a violation only if it fails
+    every time (the faults this exists for are deterministic; load only delays)."""
+    t0 = time.time()
+    counts = {"cases": 0, "scenarios": {}, "retried": 0, "wall_s": 0.0}
+    viol = []
+    try:
+        exe = build.harness("r_accept", ["r_accept.c"])
+    except build.BuildError as e:
+        viol.append(("accept-build", {"kind": "build", "sub": SUB, "error": str(e), "log": e.log[-3000:]}, True))
+        return counts, viol
+    if replay:
+        rp = json.load(open(replay)) if isinstance(replay, str) else replay
+        if rp.get("sub") != SUB:
+            return counts, viol
+        sc = [tuple(rp["ops"][0].split()[1:])]
+    else:
+        sc = scenarios(tier)
+    for args in sc:
+        key = " ".join(args)
+        tries = []
+        for attempt in range(3):
+            ok, line, rc, err = run_one(exe, args)
+            tries.append(line or f"rc={rc} {err[-200:]}")
+            counts["cases"] += 1
+            if ok:
+                break
+            counts["retried"] += 1
+        counts["scenarios"][key] = tries[-1]
+        if not ok:
+            viol.append((f"accept-{args[0]}-{re.sub(r'[^a-z0-9]+', '', args[1])[:12]}", {
+                "kind": "a listener on a real transport does not surface every connection: after accepting a connection (its ADD_PRE "
+                        "callback still running) or after a failed handshake it is not ready for the next one (REAL, harness/r_accept.c)",
+                "sub": SUB, "ops": ["r_accept " + key], "observed": tries,
+                "expected": "pre = post = got = k on every attempt (every connection reaches ADD_POST and delivers its message)"}, False))
+    counts["wall_s"] = round(time.time() - t0, 1)
+    core.log(PROP, f"accept: {len(sc)} scenarios on real transports, {counts['retried']} retried; " + "; ".join(f"{k}: {v.split('k=')[-1] if 'k=' in v else v}" for k, v in counts["scenarios"].items()))
+    return counts, viol
 
 
 def run(tier, seed, replay=None):
-    return life_common.check(PROP, tier, seed, replay)
+    if replay and json.load(open(replay)).get("sub") == SUB:
+        return life_common.check(PROP, tier, seed, None, parts=[("accept", lambda t, s, st, r: accept_part(t, s, st, replay))])
+    return life_common.check(PROP, tier, seed, replay, parts=[("accept", accept_part)])
